@@ -449,7 +449,7 @@ func vfC04SeedPick(pool []int, k int, salt int64) []int {
 // reports `crash` / `oom` / `hang` for exactly that input and starts a new worker.
 
 type vfC04Req struct {
-	Kind string     `json:"kind"` // parse | send | cached
+	Kind string     `json:"kind"` // parse | send | cached | alloc (Size = n, Opts.PipeSize = avail) | lzf (Size = outlen, Opts.PipeSize = inlen)
 	Data string     `json:"data"` // hex
 	Size int64      `json:"size"`
 	KVs  []vfc20.KV `json:"kvs,omitempty"`
@@ -484,6 +484,21 @@ func vfC04WorkerLoop(t *testing.T) {
 		switch rq.Kind {
 		case "parse":
 			rp.Tok = vfC04ParseTok(data)
+		case "alloc":
+			// the real ReadBytes(n) over a source of `avail` bytes: length of what it returns, ok | err
+			p, err := rdb.NewRdbReader(bytes.NewReader(make([]byte, rq.Opts.PipeSize))).ReadBytes(int(rq.Size))
+			rp.Tok = fmt.Sprintf("%d %s", len(p), map[bool]string{true: "ok", false: "err"}[err == nil])
+		case "lzf":
+			// the real string reader on C3 <inlen> <outlen> <inlen literal-run bytes>: refused by the length bound, or allocated
+			in := make([]byte, rq.Opts.PipeSize) // control bytes 0x00: one literal each, so the data itself is malformed LZF at most
+			b := append([]byte{0xC3}, vfc20.EncLen(uint64(len(in)))...)
+			b = append(b, vfc20.EncLen(uint64(rq.Size))...)
+			b = append(b, in...)
+			_, err := rdb.NewRdbReader(bytes.NewReader(b)).ReadString()
+			rp.Tok = "alloc"
+			if err != nil && strings.Contains(err.Error(), "is impossible for") {
+				rp.Tok = "refused"
+			}
 		case "send", "cached":
 			var r vfC04Res
 			if rq.Kind == "send" {
@@ -1750,6 +1765,47 @@ func TestVerifC04(t *testing.T) {
 					s.Count("fan_big_value_points")
 				}
 			}
+		}
+	}
+
+	phase("3c")
+	// ------------------------------------------------ 3c. the allocation discipline (Model/RdbAlloc, theorem alloc_bounded_partial):
+	// the real ReadBytes / lzfDecompress in the worker child (a mutant that trusts the field dies there: `oom`) vs the model
+	{
+		step := int64(rdb.VerifReadBytesStep)
+		type na struct{ n, avail int64 }
+		cases := []na{{0, 0}, {1, 0}, {10, 3}, {10, 10}, {1000, 999}, {1000, 5000}, {step, 10}, {step + 5, 10}, {1 << 40, 10},
+			{step + 5, step + 5}, {2*step + 1, step + 3}, {1 << 62, 0}}
+		for i := 0; i < 6; i++ {
+			cases = append(cases, na{int64(rnd.Intn(5000)), int64(rnd.Intn(5000))})
+		}
+		for _, c := range cases {
+			mark(fmt.Sprintf("alloc %d %d", c.n, c.avail))
+			o := vfC04DefaultOpts()
+			o.PipeSize = int(c.avail)
+			rp, died, tail := vfC04W.call(vfC04Req{Kind: "alloc", Size: c.n, Opts: o})
+			if died != "" {
+				s.Count("viol_" + died)
+				s.Violate(died, fmt.Sprintf("ReadBytes(%d) over a source of %d bytes: the process dies (%s)", c.n, c.avail, tail),
+					map[string]interface{}{"scenario": "alloc", "n": c.n, "avail": c.avail})
+				continue
+			}
+			s.Op(fmt.Sprintf("c04alloc %d %d %d", step, c.n, c.avail), rp.Tok)
+			s.Count("alloc_points")
+		}
+		for _, c := range []na{{40, 5}, {1320, 5}, {1321, 5}, {1 << 31, 5}, {0, 0}, {1, 0}, {int64(rnd.Intn(3000)), int64(rnd.Intn(12))}} {
+			mark(fmt.Sprintf("lzf %d %d", c.n, c.avail))
+			o := vfC04DefaultOpts()
+			o.PipeSize = int(c.avail)
+			rp, died, tail := vfC04W.call(vfC04Req{Kind: "lzf", Size: c.n, Opts: o})
+			if died != "" {
+				s.Count("viol_" + died)
+				s.Violate(died, fmt.Sprintf("LZF string with outlen %d over %d compressed bytes: the process dies (%s)", c.n, c.avail, tail),
+					map[string]interface{}{"scenario": "lzf", "outlen": c.n, "inlen": c.avail})
+				continue
+			}
+			s.Op(fmt.Sprintf("c04lzf %d %d", c.n, c.avail), rp.Tok)
+			s.Count("alloc_points")
 		}
 	}
 
